@@ -896,6 +896,7 @@ def rule_component_conditions(ctx):
     from ..engine import report as R
     from . import C12
     C12.rule_R12(R.Retag(ctx, "C12."))
+    C12.rule_enum_pair_tables(R.Retag(ctx, "C12."), C12._score_tables(R.Retag(ctx, "C12.")))
 
 
 def rule_key_components_reject(ctx):
